@@ -185,7 +185,7 @@ class Interp:
             "map": PyFunc(lambda f, *seqs: [self.call(f, list(xs), {}) for xs in zip(*[list(q) for q in seqs])], "map", True), "iter": PyFunc(iter, "iter"), "next": PyFunc(next, "next"),
             "print": PyFunc(lambda *a, **k: None, "print", True),
             "getattr": PyFunc(self._getattr, "getattr", True),
-            "True": True, "False": False, "None": None,
+            "True": True, "False": False, "None": None, "NotImplemented": NotImplemented,
             "Exception": ClassRef("Exception"), "ValueError": ClassRef("ValueError"), "TypeError": ClassRef("TypeError"),
             "NotImplementedError": ClassRef("NotImplementedError"), "ZeroDivisionError": ClassRef("ZeroDivisionError"),
             "AttributeError": ClassRef("AttributeError"), "RuntimeWarning": ClassRef("RuntimeWarning"),
@@ -257,6 +257,7 @@ class Interp:
                                             "ascii_uppercase": "ABCDEFGHIJKLMNOPQRSTUVWXYZ"}),
         }
         self.class_call_hook = None
+        self.module_state: Dict[Any, Any] = {}   # (module, name) -> mutable module-level object, evaluated once
         self.overrides: Dict[str, Any] = {}      # 'module.function' -> value replacing the repository definition
         self.plain_classes = {"KingdonPrinter": "codegen.KingdonPrinter", "AdditionChains": "codegen.AdditionChains",
                               "Polynomial": "polynomial.Polynomial", "RationalPolynomial": "polynomial.RationalPolynomial"}
@@ -1201,6 +1202,8 @@ class Interp:
         return out
 
     def compare(self, op, a, b, node):
+        if isinstance(op, (ast.Is, ast.IsNot)) and isinstance(a, ClassRef) and isinstance(b, ClassRef):
+            return (a == b) if isinstance(op, ast.Is) else (a != b)     # one class object per name
         if isinstance(op, (ast.Is, ast.IsNot)) and (isinstance(a, (Obj, T, Closure, ClassRef)) or isinstance(b, (Obj, T, Closure, ClassRef)) or a is None or b is None):
             return (a is b) if isinstance(op, ast.Is) else (a is not b)
         if isinstance(a, Obj) and "compare" in a.methods:
@@ -1377,10 +1380,16 @@ class Env:
                 elif isinstance(st, ast.Assign):
                     for t in st.targets:
                         if isinstance(t, ast.Name) and t.id == name:
+                            if (self.module, name) in interp.module_state:
+                                found = interp.module_state[self.module, name]
+                                continue
                             try:
                                 found = interp.eval(st.value, Env({}, {}, self.module, interp))
                             except NoValue:
                                 found = Unk(f"module variable {name}")
+                            if isinstance(found, (dict, list, set)):
+                                # a mutable module-level object is ONE object for the life of the interpreter
+                                interp.module_state[self.module, name] = found
             if found is not None:
                 return found
         if name in interp.builtins:
